@@ -35,7 +35,13 @@ import (
 var gaps []string
 var consts = map[string]string{}
 
-func gap(format string, a ...interface{}) { gaps = append(gaps, fmt.Sprintf(format, a...)) }
+// cur names the generated definitions the translator is working on: a gap is attributed to them, so that the orchestrator can
+// fall back to the pinned value of exactly those definitions (and say so) instead of losing every table
+var cur = "*"
+
+func gap(format string, a ...interface{}) {
+	gaps = append(gaps, "["+cur+"] "+fmt.Sprintf(format, a...))
+}
 
 func exprString(e ast.Expr) string {
 	switch x := e.(type) {
@@ -603,10 +609,39 @@ func main() {
 			}
 		}
 	}
+	// named constants anywhere in the package (a refactor that names a magic number must not blind the translator)
+	if all, err := filepath.Glob(filepath.Join(dir, "*.go")); err == nil {
+		for round := 0; round < 3; round++ {
+			for _, fn := range all {
+				if strings.HasSuffix(fn, "_test.go") || strings.HasPrefix(filepath.Base(fn), "verif_") {
+					continue
+				}
+				pf, perr := parser.ParseFile(token.NewFileSet(), fn, nil, 0)
+				if perr != nil {
+					continue
+				}
+				for _, d := range pf.Decls {
+					if g, ok := d.(*ast.GenDecl); ok && g.Tok == token.CONST {
+						for _, sp := range g.Specs {
+							vs := sp.(*ast.ValueSpec)
+							for i, n := range vs.Names {
+								if _, have := consts[n.Name]; !have && i < len(vs.Values) {
+									if v, okv := evalInt(vs.Values[i]); okv {
+										consts[n.Name] = fmt.Sprint(v)
+									}
+								}
+							}
+						}
+					}
+				}
+			}
+		}
+	}
 	var sb strings.Builder
 	sb.WriteString("(* GENERATED by tools/gotables from the Go sources of /repo on every run of bin/check. Do not edit. *)\n")
 	sb.WriteString("From Coq Require Import ZArith List String.\nImport ListNotations.\nFrom PM Require Import Base.HeaderKinds.\nOpen Scope Z_scope.\n\n")
 
+	cur = "struct_fields"
 	names := make([]string, len(fieldIdx))
 	for n, i := range fieldIdx {
 		names[i] = n
@@ -619,19 +654,23 @@ func main() {
 		sb.WriteString("\"" + n + "\"")
 	}
 	sb.WriteString("]%string.\n")
+	cur = "header_len"
 	hl, ok := consts["HeaderV3LenBytes"]
 	if !ok {
 		gap("const HeaderV3LenBytes not found")
 		hl = "0"
 	}
 	fmt.Fprintf(&sb, "Definition header_len : nat := %s%%nat.\n", hl)
+	cur = "ser_buffer_len ser_layout"
 	ser := serLayout(funcDecl(fdir, "SerializeHeader"))
 	fmt.Fprintf(&sb, "Definition ser_buffer_len : nat := %s%%nat.\n", orZero(consts["__serbuf_len"]))
 	sb.WriteString(emitLayout("ser_layout", ser))
+	cur = "deser_layout"
 	sb.WriteString(emitLayout("deser_layout", deserLayout(funcDecl(fdir, "DeserializeHeader"))))
 
 	// switch tables
 	emitTab := func(fname, coqName string, keyIsString bool, nvals int) {
+		cur = coqName + " " + coqName + "_default"
 		rows, def := switchTable(funcDecl(fdir, fname))
 		fmt.Fprintf(&sb, "Definition %s :=\n  [", coqName)
 		for i, r := range rows {
@@ -674,6 +713,7 @@ func main() {
 
 	// root budgets at the two call sites
 	for _, cs := range []struct{ file, name string }{{"convert.go", "root_budget_convert"}, {"extract.go", "root_budget_extract"}} {
+		cur = cs.name
 		f := parse(filepath.Join(dir, cs.file))
 		calls := findCalls(f, "optimizeDirectories")
 		v := int64(-1)
@@ -689,6 +729,7 @@ func main() {
 	}
 	// depth bounds
 	for _, cs := range []struct{ file, name string }{{"server.go", "depth_bound_server"}, {"show.go", "depth_bound_cli"}} {
+		cur = cs.name
 		b := depthBounds(parse(filepath.Join(dir, cs.file)))
 		v := int64(-1)
 		if len(b) == 1 {
@@ -699,6 +740,7 @@ func main() {
 		fmt.Fprintf(&sb, "Definition %s : Z := %d.\n", cs.name, v)
 	}
 	// server constants: root fetch length, regexps, cache accounting
+	cur = "root_fetch_len"
 	fsrv := parse(filepath.Join(dir, "server.go"))
 	rootLen := int64(-1)
 	ast.Inspect(fsrv, func(n ast.Node) bool {
@@ -740,6 +782,7 @@ func main() {
 		}
 	}
 	// tile-type -> required extension switch of getTileAttempt; the status literals it returns
+	cur = "ext_table"
 	var extRows []string
 	if gta := funcDecl(fsrv, "getTileAttempt"); gta != nil {
 		ast.Inspect(gta.Body, func(n ast.Node) bool {
@@ -782,6 +825,7 @@ func main() {
 	fmt.Fprintf(&sb, "Definition ext_table := [%s].\n", strings.Join(extRows, "; "))
 
 	// optimizeDirectories constants
+	cur = "optimize_int_literals optimize_float_literals"
 	od := funcDecl(fdir, "optimizeDirectories")
 	var ints []int64
 	var floats []string
@@ -803,6 +847,7 @@ func main() {
 	fmt.Fprintf(&sb, "Definition optimize_float_literals : list string := [%s]%%string.\n", quoteAll(floats))
 
 	// Edit: header-field assignments, section readers and the ordered output calls (with "!" when the error is checked)
+	cur = "edit_assignments edit_sections edit_calls"
 	fedit := parse(filepath.Join(dir, "edit.go"))
 	var assigns, sections, calls []string
 	if ed := funcDecl(fedit, "Edit"); ed != nil {
@@ -865,6 +910,7 @@ func main() {
 	fmt.Fprintf(&sb, "Definition edit_sections : list (string * string) := [%s]%%string.\n", strings.Join(sections, "; "))
 	fmt.Fprintf(&sb, "Definition edit_calls : list string := [%s]%%string.\n", strings.Join(calls, "; "))
 	// Sync: the ordered file-output calls; everything is written to the temporary file and renamed last
+	cur = "sync_calls"
 	fsync := parse(filepath.Join(dir, "sync.go"))
 	var scalls []string
 	if sy := funcDecl(fsync, "Sync"); sy != nil {
@@ -893,6 +939,7 @@ func main() {
 	fmt.Fprintf(&sb, "Definition sync_calls : list string := [%s]%%string.\n", strings.Join(scalls, "; "))
 
 	// headerToJson: the composite literal's fields
+	cur = "header_to_json_fields"
 	var hj []string
 	if fn := funcDecl(fdir, "headerToJson"); fn != nil {
 		ast.Inspect(fn.Body, func(n ast.Node) bool {
